@@ -866,4 +866,86 @@ theorem filterMap_range_getElem? {β : Type} (g : ℕ → Option β) :
 theorem unitVec_modF (a d : ℝ) : unitVec (modF a twoPi) d = unitVec a d := by
   simp [unitVec, cos_modF_twoPi, sin_modF_twoPi]
 
+/-! ### the relocation preserves the position angle -/
+
+/-- `sin(separation)·(cos, sin)(position angle)` is the numerator vector of the position angle -/
+theorem vincenty_posAngle_components (tRa tDec rRa rDec : ℝ) :
+    sin (vincenty tRa tDec rRa rDec) * cos (posAngle tRa tDec rRa rDec)
+      = sin rDec * cos tDec - cos rDec * sin tDec * cos (rRa - tRa) ∧
+    sin (vincenty tRa tDec rRa rDec) * sin (posAngle tRa tDec rRa rDec)
+      = sin (rRa - tRa) * cos rDec := by
+  set Δ := rRa - tRa
+  set px := sin rDec * cos tDec - cos rDec * sin tDec * cos Δ with hpx
+  set py := sin Δ * cos rDec with hpy
+  have hsinV : sin (vincenty tRa tDec rRa rDec) = √(px ^ 2 + py ^ 2) := by
+    rw [sin_vincenty]; congr 1; simp only [px, py, Δ]; ring
+  have hPA : cos (posAngle tRa tDec rRa rDec) = cos (Complex.arg ⟨px, py⟩) ∧
+      sin (posAngle tRa tDec rRa rDec) = sin (Complex.arg ⟨px, py⟩) := by
+    simp only [posAngle, TranscReal.sin_def, TranscReal.cos_def, atan2_def, cos_modF_twoPi, sin_modF_twoPi]
+    exact ⟨rfl, rfl⟩
+  obtain ⟨hcB, hsB⟩ := norm_mul_cos_sin_arg px py
+  rw [hsinV, hPA.1, hPA.2]
+  exact ⟨hcB, hsB⟩
+
+theorem cos_modF_sub (u v : ℝ) : cos (modF u twoPi - v) = cos (u - v) := by
+  rw [modF_eq_sub, twoPi_eq, show u - (⌊u / (2 * π)⌋ : ℤ) * (2 * π) - v = (u - v) - (⌊u / (2 * π)⌋ : ℤ) * (2 * π) by ring]
+  exact cos_sub_int_mul_two_pi _ _
+
+theorem sin_modF_sub (u v : ℝ) : sin (modF u twoPi - v) = sin (u - v) := by
+  rw [modF_eq_sub, twoPi_eq, show u - (⌊u / (2 * π)⌋ : ℤ) * (2 * π) - v = (u - v) - (⌊u / (2 * π)⌋ : ℤ) * (2 * π) by ring]
+  exact sin_sub_int_mul_two_pi _ _
+
+/-- **`offset_by` in its regular branch: the position angle from the start point to the new point
+is the position angle that was asked for** — stated for the relocation: the position angle
+source → relocated event equals the position angle true → reco (all inputs with the source outside
+astropy's polar cap; no condition on the event). -/
+theorem relocate_posAngle {eps : ℝ} (heps : 0 < eps) (sRa sDec tRa tDec rRa rDec : ℝ)
+    (hs : eps ≤ cos sDec) :
+    posAngle sRa sDec (relocate eps sRa sDec tRa tDec rRa rDec).1 (relocate eps sRa sDec tRa tDec rRa rDec).2
+      = posAngle tRa tDec rRa rDec := by
+  have hS : 0 < cos sDec := lt_of_lt_of_le heps hs
+  obtain ⟨hx, hy⟩ := vincenty_posAngle_components tRa tDec rRa rDec
+  set B := posAngle tRa tDec rRa rDec with hB
+  set a := vincenty tRa tDec rRa rDec with ha
+  set C := sin sDec
+  set S := cos sDec
+  set cb := C * cos a + S * sin a * cos B with hcb
+  have hCS : C ^ 2 + S ^ 2 = 1 := sin_sq_add_cos_sq sDec
+  have haa : sin a ^ 2 + cos a ^ 2 = 1 := sin_sq_add_cos_sq a
+  have hBB : sin B ^ 2 + cos B ^ 2 = 1 := sin_sq_add_cos_sq B
+  have hcbm : -1 ≤ cb ∧ cb ≤ 1 := by
+    have := offsetCosB_mem sDec B a
+    simpa only [offsetCosB, TranscReal.sin_def, TranscReal.cos_def] using this
+  set xc := cos a - cb * C with hxc
+  set xs := sin a * sin B * S with hxs
+  have hhyp : xc ^ 2 + xs ^ 2 = S ^ 2 * (1 - cb ^ 2) := by simp only [xc, xs, cb]; grind
+  have hnn : 0 ≤ 1 - cb ^ 2 := by nlinarith
+  have hsq : √(xc ^ 2 + xs ^ 2) = S * √(1 - cb ^ 2) := by
+    rw [hhyp, sqrt_mul (sq_nonneg S), sqrt_sq hS.le]
+  obtain ⟨hcA, hsA⟩ := norm_mul_cos_sin_arg xc xs
+  rw [hsq] at hcA hsA
+  -- the relocated point
+  have hbranch : ¬ S < eps := not_lt.mpr hs
+  have hout2 : (relocate eps sRa sDec tRa tDec rRa rDec).2 = arcsin cb := rfl
+  have hout1 : (relocate eps sRa sDec tRa tDec rRa rDec).1 = modF (sRa + Complex.arg ⟨xc, xs⟩) twoPi := by
+    simp only [relocate, offsetBy, TranscReal.sin_def, TranscReal.cos_def, atan2_def]
+    rw [if_neg (hbranch : ¬ cos sDec < eps)]
+  -- the numerator vector of the position angle source → relocated point is that of true → reco
+  have hcomp : ∀ (X Y : ℝ), X = sin a * cos B → Y = sin a * sin B →
+      modF (Complex.arg ⟨X, Y⟩) twoPi = B := by
+    intro X Y hX hY
+    rw [hX, hY, hx, hy, hB]
+    simp only [posAngle, TranscReal.sin_def, TranscReal.cos_def, atan2_def]
+  rw [hout1, hout2]
+  simp only [posAngle, TranscReal.sin_def, TranscReal.cos_def, atan2_def, sin_arcsin hcbm.1 hcbm.2, cos_arcsin,
+    cos_modF_sub, sin_modF_sub, add_sub_cancel_left]
+  apply hcomp
+  · -- S·x' = S·sin a·cos B
+    have h1 : S * (cb * S - √(1 - cb ^ 2) * C * cos (Complex.arg ⟨xc, xs⟩)) = S * (sin a * cos B) := by
+      linear_combination (-C) * hcA + cb * hCS + hcb - C * hxc
+    exact mul_left_cancel₀ hS.ne' h1
+  · have h2 : S * (sin (Complex.arg ⟨xc, xs⟩) * √(1 - cb ^ 2)) = S * (sin a * sin B) := by
+      linear_combination hsA + hxs
+    exact mul_left_cancel₀ hS.ne' h2
+
 end Coords
